@@ -1011,7 +1011,41 @@ fn program_json(stmts: &[EStmt], spaced: bool) -> Value {
     json!({"leg": "e2e", "spaced_double_colon": spaced, "statements": stmts.iter().map(|s| s.to_json()).collect::<Vec<_>>(), "source": render_program(stmts, spaced)})
 }
 
-/// Build + run programs; failures are isolated to single-statement programs before they are reported.
+/// Two signatures name the same failure class (a build failure is keyed by shape only once it is isolated).
+fn same_class(a: &str, b: &str) -> bool {
+    a == b || (a.contains("build-failed") && b.contains("build-failed"))
+}
+
+/// Manual shrinking of a failing program: the named statement alone if that still fails the same way, otherwise
+/// bisection (both halves are built in parallel; an error statement stays the last one of its half).
+fn shrink_program(farm: &Farm, stmts: &[EStmt], spaced: bool, idx: usize, key: &str) -> (Vec<EStmt>, Option<Fail>) {
+    let fails_with = |cand: &[EStmt], o: &FarmOut| -> Option<Fail> { judge_program(cand, o).ok()?.into_iter().map(|(_, f)| f).find(|f| same_class(&f.key, key)) };
+    if idx != usize::MAX && stmts.len() > 1 {
+        let single = vec![stmts[idx].clone()];
+        let o = farm.run_many(&[Project::single("c05min", &render_program(&single, spaced))], Mode::BuildRun);
+        if let Some(f) = fails_with(&single, &o[0]) {
+            return (single, Some(f));
+        }
+    }
+    let mut cur: Vec<EStmt> = stmts.to_vec();
+    let mut last: Option<Fail> = None;
+    while cur.len() > 1 {
+        let (l, r) = cur.split_at(cur.len() / 2);
+        let o = farm.run_many(&[Project::single("c05bl", &render_program(l, spaced)), Project::single("c05br", &render_program(r, spaced))], Mode::BuildRun);
+        if let Some(f) = fails_with(l, &o[0]) {
+            last = Some(f);
+            cur = l.to_vec();
+        } else if let Some(f) = fails_with(r, &o[1]) {
+            last = Some(f);
+            cur = r.to_vec();
+        } else {
+            break;
+        }
+    }
+    (cur, last)
+}
+
+/// Build + run programs; one report per distinct signature, shrunk first.
 fn run_programs(farm: &Farm, programs: &[Vec<EStmt>], spaced: bool, out: &mut Outcome, ev: &mut Evidence) {
     let projects: Vec<Project> = programs.iter().enumerate().map(|(i, st)| Project::single(&format!("c05p{i}"), &render_program(st, spaced))).collect();
     let outs = farm.run_many(&projects, Mode::BuildRun);
@@ -1023,38 +1057,18 @@ fn run_programs(farm: &Farm, programs: &[Vec<EStmt>], spaced: bool, out: &mut Ou
             }
             Ok(f) => f,
         };
-        if fails.is_empty() {
-            continue;
-        }
-        // isolate: every statement as its own program (in parallel), report those that fail on their own
-        let mut reported_any = false;
-        if stmts.len() > 1 {
-            let singles: Vec<Vec<EStmt>> = stmts.iter().map(|s| vec![s.clone()]).collect();
-            let projs: Vec<Project> = singles.iter().enumerate().map(|(i, st)| Project::single(&format!("c05m{i}"), &render_program(st, spaced))).collect();
-            let o1 = farm.run_many(&projs, Mode::BuildRun);
-            for (single, oo) in singles.iter().zip(o1.iter()) {
-                if let Ok(ff) = judge_program(single, oo) {
-                    for (_, f) in ff {
-                        reported_any = true;
-                        if out.seen(&f.key) {
-                            ev.violations += 1;
-                            continue;
-                        }
-                        let body = serde_json::to_string_pretty(&program_json(single, spaced)).unwrap();
-                        out.violation(ev, &f.key, "json", &body, &format!("{}\n--- program ---\n{}", f.what, render_program(single, spaced)));
-                    }
-                }
+        for (idx, f) in fails {
+            ev.violations += 1;
+            if out.seen(&f.key) || out.violations.len() >= out.max_reports {
+                continue;
             }
-        }
-        if !reported_any {
-            for (_, f) in fails {
-                if out.seen(&f.key) {
-                    ev.violations += 1;
-                    continue;
-                }
-                let body = serde_json::to_string_pretty(&program_json(stmts, spaced)).unwrap();
-                out.violation(ev, &f.key, "json", &body, &format!("{}\n--- program ---\n{}", f.what, util::truncate(&render_program(stmts, spaced), 2500)));
+            let (small, f_small) = shrink_program(farm, stmts, spaced, idx, &f.key);
+            let f = f_small.unwrap_or(f);
+            if out.seen(&f.key) {
+                continue;
             }
+            let body = serde_json::to_string_pretty(&program_json(&small, spaced)).unwrap();
+            out.violation(ev, &f.key, "json", &body, &format!("{}\n--- program ---\n{}", f.what, util::truncate(&render_program(&small, spaced), 2500)));
         }
     }
 }
@@ -1399,6 +1413,7 @@ fn main() {
     replay_known(&mut out, &mut farm);
 
     // ---------------- leg 1: in-process
+    let t_inproc = std::time::Instant::now(); // evidence only, never a verdict
     let n_cases: usize = args.tier.pick(300_000, 6_000_000);
     let chunk = 50_000usize;
     let xcheck_want: usize = args.tier.pick(0, 200_000);
@@ -1463,6 +1478,7 @@ fn main() {
             }
         }
     }
+    ev.set("wall_s_in_process_leg", json!(t_inproc.elapsed().as_secs_f64()));
     ev.set("class_histogram_scope", json!("generator classes are counted on the first 1000000 in-process cases"));
 
     // ---------------- leg 3: CPython cross-check of the model
@@ -1555,7 +1571,9 @@ fn main() {
             let _ = std::fs::write(format!("{dir}/c05p{i}.incn"), render_program(p, spaced));
         }
     }
+    let t_e2e = std::time::Instant::now();
     run_programs(&farm, &programs, spaced, &mut out, &mut ev);
+    ev.set("wall_s_e2e_leg", json!(t_e2e.elapsed().as_secs_f64()));
     ev.set("e2e_programs", json!(programs.len()));
     ev.set("e2e_statements", json!(programs.iter().map(|p| p.len()).sum::<usize>()));
     ev.set("in_process_cases", json!(n_cases));
